@@ -109,3 +109,22 @@ def check(ctx):
     t = src(be)
     ctx.check("'HTTP_' + key.replace('-', '_').upper()" in t and "requestant.headers.get('content-type'" in t and "environ['CONTENT_LENGTH']" in t,
               "T6-lodict", be, "buildEnviron: HTTP_<NAME> keys, CONTENT_TYPE, CONTENT_LENGTH", "a consistent WSGI environment")
+    # JSON bodies: what json.dumps emits must survive the bytes conversion that follows it.  ns2b() encodes ISO-8859-1, so the
+    # text must be pure ASCII (ensure_ascii left at its default) unless it is encoded as UTF-8 explicitly
+    ctx.rule("T9-json", "json.dumps(.., ensure_ascii=False) is never converted to bytes with ns2b()/latin-1")
+    nj = 0
+    for modn in ("aio.http.clienting", "aio.http.serving", "aio.http.httping"):
+        m = ctx.repo.mod(modn)
+        ctx.use(m)
+        for x in ast.walk(m.tree):
+            if isinstance(x, ast.Call) and call_name(x) in ("json.dumps", "dumps"):
+                nj += 1
+                raw = any(k.arg == "ensure_ascii" and not (isinstance(k.value, ast.Constant) and k.value.value is True) for k in x.keywords)
+                p = getattr(x, "_parent", None)
+                latin = isinstance(p, ast.Call) and call_name(p) in ("ns2b",) or \
+                    (isinstance(p, ast.Attribute) and p.attr == "encode" and isinstance(getattr(p, "_parent", None), ast.Call) and
+                     any(const_str(a) and const_str(a).lower().replace("-", "") in ("iso88591", "latin1", "ascii") for a in p._parent.args))
+                ctx.check(not (raw and latin), "T9-json", x, "json body keeps ensure_ascii (or is encoded as utf-8): %s" % src(p if isinstance(p, ast.Call) else x)[:70],
+                          "non-ASCII characters in the JSON text are sent as Latin-1 bytes under `charset=utf-8` (undecodable by the peer) "
+                          "or make the encoder raise UnicodeEncodeError: the body does not survive the round trip")
+    ctx.floor("T9-json:sites", nj, 2)
